@@ -17,7 +17,7 @@ for pid in sorted(os.listdir(SRC)):
     if not (c["tests_exit"] == 0 and "99 passed" in c["tests"] and c["demo_with_patch_exit"] != 0 and c["demo_without_patch_exit"] == 0):
         print("NOT kept (confirmation failed):", pid, c); continue
     det = {}
-    for tsv in sorted(glob.glob("/verif/out/matrix_r4_%s*.tsv" % pid), key=os.path.getmtime):
+    for tsv in sorted(glob.glob("/verif/out/matrix_r4_%s*.tsv" % pid), key=lambda p: (p.endswith("_b.tsv"), p)):   # *_b.tsv: re-runs with the machinery as committed after the round
         for line in open(tsv):
             f = line.rstrip("\n").split("\t")
             if len(f) >= 7 and f[3].startswith("exit=") and f[0] == pid:
